@@ -176,6 +176,16 @@ impl Names {
     }
 }
 
+/// CAS versions are u64, the specification's integers are 32 bit: the top of the u64 range is
+/// mapped onto the top of the model's range (u64::MAX <-> 2_000_000_000 = VerTop of Core.tla).
+pub const VER_TOP: u64 = 2_000_000_000;
+pub fn ver_in(n: u64) -> u64 {
+    if n > VER_TOP - 1_000 && n <= VER_TOP { u64::MAX - (VER_TOP - n) } else { n }
+}
+pub fn ver_out(n: u64) -> u64 {
+    if n >= u64::MAX - 1_000 { VER_TOP - (u64::MAX - n) } else { n }
+}
+
 pub fn is_client_name(s: &str) -> bool {
     s.len() >= 2 && s.starts_with('c') && s[1..].chars().all(|c| c.is_ascii_digit())
 }
